@@ -31,7 +31,8 @@ func c06(c *core.Check) {
 		"(2) Constants.GoConstants and GoVariables filter with IsConstantInGo in opposite polarity (a partition: every constant is declared exactly once), and the Constant template prints the const block from GoConstants and the var block from GoVariables with the same `name = initialization` pair. " +
 		"(3) on every abstract rendering of the struct shell: NewX's composite literal and InitDefault set exactly the fields with IsSetDefault to the same DefaultValue placeholder (sibling agreement, compared with each other); " +
 		"(4) on every rendering of FieldGetOrSet / FieldIsSet: the <Type>_<Field>_DEFAULT variable is declared iff the field supports IsSet, initialised with the field's DefaultValue iff it has a default, returned by the getter when the field is unset, and it is the same variable IsSet compares against. " +
-		"NOT decided: any value (numbers, escaping, references across includes)."
+		"(5) scope discipline of the resolver: every recursive resolveConst / getIDValue call keeps the value scope (the file the literal is written in) unchanged, the type scope passed along is the one the type was looked up in, and element types are read only from dereferenced types (a typedef reference has nil KeyType/ValueType). " +
+		"NOT decided: any value (numbers, escaping)."
 	c.RuleText = "one obligation per category / helper / sibling pair / rendering-level rule"
 	c.Assume = []string{"templates are the only producers of constant and default code"}
 	pk := c.Prog.Pkg(golangRel)
@@ -157,6 +158,7 @@ func c06(c *core.Check) {
 	c.Decide(pol["GoConstants"] == "pos" && pol["GoVariables"] == "neg", "const-partition", golangRel+".(Constants).GoConstants~GoVariables", "", "IsConstantInGo / !IsConstantInGo: the two lists partition the constants",
 		fmt.Sprintf("GoConstants filters with %q and GoVariables with %q: a constant is declared twice or not at all", pol["GoConstants"], pol["GoVariables"]))
 	// templates
+	c06scopes(c)
 	st := tmplEngine(c)
 	if st == nil {
 		return
